@@ -10,6 +10,7 @@ import (
 
 	ammtypes "github.com/elys-network/elys/x/amm/types"
 	ctypes "github.com/elys-network/elys/x/commitment/types"
+	lptypes "github.com/elys-network/elys/x/leveragelp/types"
 	mctypes "github.com/elys-network/elys/x/masterchef/types"
 	ptypes "github.com/elys-network/elys/x/parameter/types"
 	perptypes "github.com/elys-network/elys/x/perpetual/types"
@@ -602,6 +603,53 @@ func uncommittedSoFar(h *History, blk *BlockRecord) map[string]sdkmath.Int {
 		if m, ok := tx.Msg.(*ctypes.MsgUncommitTokens); ok && tx.Code == 0 {
 			add(m.Denom, m.Amount)
 		}
+		// MsgUnstake of Eden / EdenB is an uncommit of that amount through the same keeper function
+		if m, ok := tx.Msg.(*ctypes.MsgUnstake); ok && tx.Code == 0 && isLedgerOnly(m.Asset) {
+			add(m.Asset, m.Amount)
+		}
 	}
 	return acc
+}
+
+// c13Drain: every holder of reward-bearing shares (users directly, leveragelp position addresses
+// through MsgClaimRewards of their owners) claims everything, in a generated order, one tx each.
+func c13Drain(h *History, g *G) []*Op {
+	s := h.Cur
+	var ops []*Op
+	var poolIDs []uint64
+	for _, p := range s.Pools {
+		poolIDs = append(poolIDs, p.PoolId)
+	}
+	poolIDs = append(poolIDs, uint64(sstypes.PoolId))
+	users := append([]*Account{}, h.W.Accounts...)
+	users = append(users, h.W.Admin)
+	for len(users) > 0 {
+		k := g.Pick("drain/who", len(users))
+		u := users[k]
+		users = append(users[:k], users[k+1:]...)
+		ops = append(ops, &Op{Signer: u, Kind: "drain.masterchef_claim", Msg: &mctypes.MsgClaimRewards{Sender: u.Addr.String(), PoolIds: poolIDs}})
+	}
+	for _, p := range s.LPPositions {
+		if a := h.W.ByAddr[p.Address]; a != nil {
+			ops = append(ops, &Op{Signer: a, Kind: "drain.leveragelp_claim", Msg: &lptypes.MsgClaimRewards{Sender: a.Addr.String(), Ids: []uint64{p.Id}}})
+		}
+	}
+	return ops
+}
+
+// c13Final: every claim of the drain must have succeeded ("every claim succeeds whatever the order").
+func c13Final(h *History) []Violation {
+	if len(h.Trace.Blocks) == 0 || h.Trace.Blocks[len(h.Trace.Blocks)-1].Tag != "final" {
+		return nil
+	}
+	var out []Violation
+	for _, tx := range h.Trace.Blocks[len(h.Trace.Blocks)-1].Txs {
+		if strings.HasPrefix(tx.Kind, "drain.") {
+			h.Labels["c13-drain-claims"]++
+			if tx.Code != 0 && !strings.Contains(tx.Log, "account sequence mismatch") {
+				out = append(out, Violation{Sig: "C13/claim-failed-in-drain", Detail: fmt.Sprintf("%s's claim in the closing drain failed: %s", tx.Signer, shorten(tx.Log, 300))})
+			}
+		}
+	}
+	return out
 }
